@@ -115,9 +115,9 @@ def gen_case(rng, backend):
         if all(r[c] is None for t in tables for r in t):
             tables[0][0][c] = "x"
     comps = []
-    for col in ("a", "b"):
-        m1 = rng.choice([0.9, 0.75, 0.95, 0.6, 0.8])
-        u1 = rng.choice([0.1, 0.25, 0.05, 0.4, 0.3])
+    for col in ("a", "b", "c") if rng.random() < 0.5 else ("a", "b"):
+        m1 = rng.choice([0.9, 0.75, 0.95, 0.6, 0.8, 0.99])
+        u1 = rng.choice([0.1, 0.25, 0.05, 0.4, 0.3, 0.01])
         comps.append({"col": col, "m": [m1, 1 - m1], "u": [u1, 1 - u1],
                       "tf": rng.random() < (0.6 if col == "a" else 0.2)})
     rules = rng.sample(ATOMS, rng.choice([0, 1, 2, 2]))
@@ -166,7 +166,7 @@ def run_impl(case):
     lk = make_linker(case)
     store = {}
     tap(lk._db_api, ["__splink__df_concat_with_tf", "__splink__df_comparison_vector_distribution"], store)
-    res["tf"] = {c: lk.table_management.compute_tf_table(c).as_record_dict() for c in ("a", "b")}
+    res["tf"] = {c: lk.table_management.compute_tf_table(c).as_record_dict() for c in COLS}
     if case["backend"] == "duckdb":
         api = su.make_api("duckdb")
         d = api.register_multiple_tables(frames_of(case))
@@ -229,7 +229,7 @@ def build(case, res):
     rows = all_rows(case)
     n = len(rows)
     # ---- term frequencies
-    for col in ("a", "b"):
+    for col in COLS:
         ids = value_ids(case, col)
         colv = [None if r[col] is None else ids[r[col]] for _, r in rows]
         impl = sorted((ids.get(x[col], -1), Fraction(x[f"tf_{col}"])) for x in res["tf"][col])
@@ -335,8 +335,7 @@ def build(case, res):
                 terms.append(f"(CHist {coq_Q(mn)} {coq_Q(mx)} {coq_Z(case['num_bins'])} {coq_list([coq_Q(s) for s in scores], 'Q')} "
                              f"{coq_Q(bw)} {coq_list([f'({coq_Q(a)}, {coq_Z(b)}, {coq_Q(c)})' for a, b, c in impl], '(Q * Z * Q)')})")
                 labels.append(("hist", None))
-                if bw != bw_spec:
-                    bad.append(("hist", f"bin width {bw} but the listed width nearest to (max-min)/{case['num_bins']} is {bw_spec}"))
+                # (the width itself is "as chosen by the library": only the Coq correspondence compares it)
                 if sum(c for _, c, _ in impl) != len(scores):
                     bad.append(("hist", f"bin counts add to {sum(c for _, c, _ in impl)} for {len(scores)} scored pairs"))
                 for lo, c, hi in impl:
@@ -363,13 +362,14 @@ def build(case, res):
                      f"{coq_list([f'({coq_Q(a)}, {coq_Q(b)}, {coq_Q(c)}, {coq_Q(d)})' for a, b, c, d in impl], '(Q * Q * Q * Q)')})")
         labels.append(("unlinkables", None))
         r5 = [Fraction(round_half_away(p * 100000), 100000) for _, p in ss]
-        want = sorted({p for p in r5 if p < 1})
-        if len(impl) != len(want) or any(abs(a[1] - b) > Fraction(1, 10**9) for a, b in zip(impl, want)):
-            bad.append(("unlinkables", f"listed probabilities {[float(a[1]) for a in impl]} expected {[float(b) for b in want]}"))
-        else:
-            for (w, p, pr, cum), pw in zip(impl, want):
-                share = Fraction(sum(1 for q in r5 if q <= pw), len(r5))
-                own = Fraction(sum(1 for q in r5 if q == pw), len(r5))
-                if abs(cum - share) > Fraction(1, 10**5) or abs(pr - own) > Fraction(1, 10**6):
-                    bad.append(("unlinkables", f"probability {float(pw)}: cum_prop {float(cum)} prop {float(pr)} but the share of records at or below it is {float(share)} (at it: {float(own)})"))
+        # every LISTED probability is recounted (which ones are listed is compared by the Coq correspondence)
+        for (w, p, pr, cum) in impl:
+            pw = min(r5, key=lambda q: abs(q - p))
+            if abs(pw - p) > Fraction(1, 10**9):
+                bad.append(("unlinkables", f"listed probability {float(p)} is not the rounded self-match probability of any record"))
+                continue
+            share = Fraction(sum(1 for q in r5 if q <= pw), len(r5))
+            own = Fraction(sum(1 for q in r5 if q == pw), len(r5))
+            if abs(cum - share) > Fraction(1, 10**5) or abs(pr - own) > Fraction(1, 10**6):
+                bad.append(("unlinkables", f"probability {float(pw)}: cum_prop {float(cum)} prop {float(pr)} but the share of records at or below it is {float(share)} (at it: {float(own)})"))
     return terms, labels, bad, skipped
